@@ -16,13 +16,15 @@ import (
 
 // EntryReport is the comparison of one entry function.
 type EntryReport struct {
-	Name     string
-	Go       string // canonical Go result ("" if Go panicked)
-	GoPanic  string
-	Model    string // canonical model result, or outcome description
-	Outcome  string // glang outcome kind
-	Agree    bool
-	EvalOrder bool // disagreement disappears under left-to-right evaluation (known finding T3)
+	Name      string
+	Go        string // canonical Go result ("" if Go panicked)
+	GoPanic   string
+	Model     string // canonical model result, or outcome description
+	Outcome   string // glang outcome kind
+	Agree     bool
+	EvalOrder bool   // disagreement disappears under left-to-right evaluation (known finding T3)
+	GoSteps   uint64 // function entries + loop iterations of the Go run
+	FuelUsed  int64  // interpreter steps of the GooseLang run
 }
 
 // Report is the result of validating one program.
@@ -32,12 +34,21 @@ type Report struct {
 	GooseErrors  []string
 	Rejected     map[string]string // Coq name of a rejected declaration -> error
 	Entries      []EntryReport
-	Text         string // emitted GooseLang
+	Text         string   // emitted GooseLang
 	Unknown      []string // model lacks a primitive (inconclusive entries)
 }
 
 // Fuel for one entry evaluation.
 const Fuel = 2_000_000
+
+// SmallRun: a Go run with at most this many function entries + loop iterations cannot need Fuel
+// interpreter steps (measured: generated programs use < 400 interpreter steps per Go step, see
+// the fuel-per-go-step extra counter of C01's evidence). StepCost/BigFuel bound the retry.
+const (
+	SmallRun = 2000
+	StepCost = 2000
+	BigFuel  = 300_000_000
+)
 
 // Options of ValidateOpts.
 type Options struct {
@@ -217,16 +228,37 @@ func ValidateOpts(src string, runner *GoRunner, opts Options) *Report {
 		for i := 0; i < res.Len(); i++ {
 			tys = append(tys, res.At(i).Type())
 		}
+		er.GoSteps = gr.Steps[e.Name]
+		fuel := int64(Fuel)
 		run := func(ltr bool) (string, string) {
-			in := glang.NewInterp(prog, Fuel)
+			in := glang.NewInterp(prog, fuel)
 			in.LeftToRight = ltr
 			out := in.Run(e.Name)
+			er.FuelUsed = fuel - in.Fuel
 			if out.Kind != glang.Value {
 				return out.Kind.String(), out.Kind.String() + ": " + out.Msg
 			}
 			return "value", Canon(in, out.Val, tys)
 		}
 		er.Outcome, er.Model = run(false)
+		if er.Outcome == "out-of-fuel" && er.GoSteps > SmallRun {
+			// The Go run itself was long (nested loops over a growing slice, …): give the model
+			// StepCost steps per Go step, up to BigFuel; if that is still not enough the case is
+			// inconclusive, not a violation. (A short Go run that exhausts 2M steps stays a violation:
+			// that is what a translated loop that never ends looks like.)
+			fuel = int64(er.GoSteps) * StepCost
+			if fuel > BigFuel {
+				fuel = BigFuel
+			}
+			if fuel > Fuel {
+				er.Outcome, er.Model = run(false)
+			}
+			if er.Outcome == "out-of-fuel" {
+				er.Outcome = "long-run-inconclusive"
+				rep.Entries = append(rep.Entries, er)
+				continue
+			}
+		}
 		er.Agree = er.Outcome == "value" && er.Model == er.Go
 		if !er.Agree {
 			dangling := false
